@@ -81,6 +81,10 @@ def validate(ctx, comp, sc, tso, runs, workdir, tag):
     ctx.states += v.tlc.distinct; ctx.transitions += v.tlc.states
     if v.accepted:
         ctx.traces += len(runs); ctx.events += len(allev) - len(runs)
+        try:
+            os.unlink(v.tlc.log)        # TLC prints the whole accepted behaviour (hundreds of MB per batch): keep logs of rejections only
+        except OSError:
+            pass
         return
     # locate the execution
     pos = v.maxl
@@ -207,7 +211,7 @@ def run_component(ctx, comp, scenarios, nseeds, nsim, mc=True, mc_timeout=3000):
         if mc:
             r = model_check(ctx, comp, sc, timeout=mc_timeout)
             log("  [TLC] %s: %d distinct states, %.0fs, %s" % (sc["name"], r.distinct, r.wall, "ok" if r.ok else (r.violation or r.error)))
-            zero = [k for k, v in r.coverage.items() if v[0] == 0 and k not in ("Terminating",)]
+            zero = [k for k, v in r.coverage.items() if v[1] == 0 and k not in ("Terminating",)]     # never generated a successor state at all
             ctx.extra.setdefault("actions_never_taken", {})[sc["name"]] = zero
         for tso in (0, 1):
             if len(ctx.violations) >= MAXV:
